@@ -53,6 +53,21 @@ pub fn run(args: &[String]) {
             let r = crate::util::slot_seeds_passing_gamma(n, count, &[0, 1, n / 2, n - 1]);
             println!("{:?} in {:?}", r, t0.elapsed());
         }
+        Some("ntthist") => {
+            let p = |n: usize| -> Vec<u32> { (0..n).map(|i| [3u32, 1, 5, 12288][i % 4] * if i < 4 { 1 } else { 0 }).collect() };
+            let seq = crate::sched::on_fresh_thread(move || (fh::felt_fft(&p(1024))[..4].to_vec(), fh::felt_fft(&p(512))[..4].to_vec())).unwrap();
+            let alone = crate::sched::on_fresh_thread(move || fh::felt_fft(&p(512))[..4].to_vec()).unwrap();
+            println!("after 1024: {:?} ; 512 after 1024: {:?} ; 512 alone: {:?}", seq.0, seq.1, alone);
+            let d = |n: usize| -> Vec<u32> { (0..n as u64).map(|k| (((k + 1) * (k + 3) * 4093) % 12289) as u32).collect() };
+            let seq2 = crate::sched::on_fresh_thread(move || {
+                let f = fh::felt_fft(&p(1024));
+                let _ = fh::felt_ifft(&f);
+                let g = fh::felt_fft(&d(1024));
+                let _ = fh::felt_ifft(&g);
+                fh::felt_fft(&p(512))[..4].to_vec()
+            }).unwrap();
+            println!("with ifft and dense in between: {:?}", seq2);
+        }
         Some("fitscan") => {
             // signatures (fixed key, message, stream k) whose compressed s2 leaves 0..=8 bits of the body unused
             use rayon::prelude::*;
